@@ -66,6 +66,7 @@ func (g *G) ent() Ent {
 }
 
 type ictx struct {
+	para     bool // top level of a paragraph: near-miss continuation lines are allowed
 	depth    int
 	inLink   bool
 	inImage  bool
@@ -148,6 +149,11 @@ func (g *G) inlines(c ictx, max int) []Inline {
 				brk = 0
 			}
 			switch {
+			case brk == 1 && c.para && c.depth == 0 && coin(g.s, 1, 5):
+				// a continuation line that looks like a block start but is indented too far
+				nm := []string{"# x", "## y", "> x", "- x", "+ x", "* x", "1. x", "10) x", "===", "---", "~~~", "#", "-"}
+				out = append(out, Soft{}, NearMiss{nm[g.s.Intn(len(nm))]}, Text{" "})
+				nearMissCount++
 			case brk == 1:
 				out = append(out, Soft{})
 			case brk == 2:
@@ -450,7 +456,7 @@ func caseVariant(s Src, lab string) string {
 
 // ---------------- blocks ----------------
 
-var labelNLCount int
+var labelNLCount, nearMissCount int
 var avoidWSOnly = true
 var excludedF19 int
 
@@ -498,7 +504,7 @@ func (g *G) block(depth int, firstInItem bool, marker byte) Block {
 		k := g.s.Intn(12)
 		switch k {
 		case 0, 1, 2:
-			return Para{g.inlines(ictx{}, 5)}
+			return Para{g.inlines(ictx{para: true}, 5)}
 		case 3:
 			lv := 1 + g.s.Intn(6)
 			return Heading{lv, g.inlines(ictx{oneLine: lv > 2 || coin(g.s, 1, 2)}, 4)}
@@ -561,7 +567,7 @@ func (g *G) block(depth int, firstInItem bool, marker byte) Block {
 		case 10:
 			return g.htmlBlock()
 		default:
-			return Para{g.inlines(ictx{}, 3)}
+			return Para{g.inlines(ictx{para: true}, 3)}
 		}
 	}
 }
